@@ -115,6 +115,8 @@ func setOutgoingTrailer(header http.Header, md metadata.MD) {
 
 func setOutgoingMetadata(header http.Header, md metadata.MD, prefix string) {
 	for k, vs := range md {
+		// Keys of a metadata.MD built by hand are not always lower case.
+		k = strings.ToLower(k)
 		if isReservedResponseHeader(k) {
 			continue
 		}
